@@ -179,7 +179,7 @@ func isIdent(s string) bool {
 		return false
 	}
 	for i, r := range s {
-		if !(r >= 'a' && r <= 'z' || r >= 'A' && r <= 'Z' || i > 0 && (r >= '0' && r <= '9' || r == '_')) {
+		if !(r >= 'a' && r <= 'z' || r >= 'A' && r <= 'Z' || r > 127 || i > 0 && (r >= '0' && r <= '9' || r == '_')) {
 			return false
 		}
 	}
@@ -524,7 +524,7 @@ func (c Case) attr(name, val string) string {
 		q, esc = "'", strings.ReplaceAll(strings.ReplaceAll(strings.ReplaceAll(strings.ReplaceAll(val, "&", "&amp;"), "<", "&lt;"), ">", "&gt;"), "'", "&#39;")
 	}
 	if c.Upper {
-		name = strings.ToUpper(name)
+		name = upperASCII(name)
 	}
 	if c.Lines {
 		return name + " = " + q + esc + q
@@ -577,7 +577,7 @@ func incTag(c Case, inc Inc, short bool) string {
 	if short {
 		tag := compTag(cp)
 		if c.Upper {
-			tag = strings.ToUpper(tag)
+			tag = upperASCII(tag)
 		}
 		return fmt.Sprintf("<%s%s%s>%s</%s>\n", tag, d, a, kids, tag)
 	}
@@ -2084,6 +2084,25 @@ func judge(what string, out string, err error, m result) error {
 	return nil
 }
 
+// upperASCII: HTML folds the case of ASCII letters only.
+func upperASCII(s string) string {
+	return strings.Map(func(r rune) rune {
+		if r >= 'a' && r <= 'z' {
+			return r - 32
+		}
+		return r
+	}, s)
+}
+
+func isASCII(s string) bool {
+	for _, r := range s {
+		if r > 127 {
+			return false
+		}
+	}
+	return true
+}
+
 func hasRootAttrs(c Case) bool {
 	for _, cp := range c.Comps {
 		if len(cp.RootAttrs) > 0 {
@@ -2452,6 +2471,18 @@ func classify(c Case) (bool, []string) {
 	add(c.Entry != "", "entry:"+c.Entry)
 	add(c.Entry == "", "entry:load-fill-render")
 	add(hasRootAttrs(c), "spelling:root-template-attributes(:name vs v-bind:name)")
+	for _, n := range c.Names {
+		if !isASCII(n) {
+			add(true, "non-ascii-name")
+			break
+		}
+	}
+	for _, cp := range c.Comps {
+		if !isASCII(cp.Name) {
+			add(true, "non-ascii-component-file-name")
+			break
+		}
+	}
 	add(c.Quote != "", "spelling:single-quoted-attributes")
 	add(c.Upper, "spelling:upper-case-tag-and-attribute-names")
 	add(c.Lines, "spelling:one-attribute-per-line")
@@ -2511,6 +2542,13 @@ var caseNames = []string{"pageTitle", "UserName", "MAXLEN", "item_2Count", "x_Y"
 
 func propName(n string) bool { return n == strings.ToLower(n) }
 
+// Text beyond ASCII: names of props / front-matter keys / :required entries, component file names
+// (starting with an ASCII letter, as HTML tag names must; their non-ASCII letters lower-case, since
+// neither HTML nor the documented kebab rule folds those) and values.
+var uniNames = []string{"größe", "título", "価格", "цена"}
+var uniCompNames = []string{"MenüKarte", "TítuloBox", "GrößeC", "Ab価格", "RowКарта"}
+var uniTexts = []string{"groß ü", "дом и сад", "価格¥100", "café — naïve", "ñ"}
+
 // compDirs: sub-folders of components/. Many start with, or consist of, letters of the word
 // "components/" itself (a prefix must be cut off as a prefix, not as a set of characters).
 var compDirs = []string{"cards", "common", "core", "menus", "posts", "nest/ed/deep", "seo", "tests", "components", "c", "sect/ions",
@@ -2541,6 +2579,9 @@ func (g *valGen) next(t *rapid.T, label string, allowFalsy, scalarOnly bool) val
 	for {
 		switch rapid.IntRange(0, hi).Draw(t, label) {
 		case 0:
+			if k%5 == 1 { // multi-byte text
+				return vals.Str(uniTexts[(k/5)%len(uniTexts)])
+			}
 			if k%4 == 0 { // dash runs inside a value
 				return vals.Str(dashTexts[(k/4)%len(dashTexts)])
 			}
@@ -2970,6 +3011,12 @@ func genCase(rec *ev.Rec, known *kf.File) func(t *rapid.T) Case {
 	return func(t *rapid.T) Case {
 		g := &valGen{}
 		c := Case{Names: append([]string(nil), universe[:rapid.IntRange(2, 4).Draw(t, "names")]...), Print: []string{"d1", "dm"}, Data: map[string]vals.V{}}
+		// names beyond ASCII (0-2 of them; they can be props, front-matter keys and :required entries)
+		for i, nu := 0, rapid.IntRange(0, 3).Draw(t, "uninames"); i < nu && i < 2; i++ {
+			if un := rapid.SampledFrom(uniNames).Draw(t, fmt.Sprintf("uniname%d", i)); !contains(c.Names, un) {
+				c.Names = append(c.Names, un)
+			}
+		}
 		// names with upper-case letters (0-2 of them)
 		for i, nc := 0, rapid.IntRange(0, 3).Draw(t, "casenames"); i < nc && i < 2; i++ {
 			if cn := rapid.SampledFrom(caseNames).Draw(t, fmt.Sprintf("casename%d", i)); !contains(c.Names, cn) {
@@ -3008,6 +3055,9 @@ func genCase(rec *ev.Rec, known *kf.File) func(t *rapid.T) Case {
 		n := rapid.IntRange(1, 5).Draw(t, "comps")
 		for i := 0; i < n; i++ {
 			cp := Comp{Name: compNames[i], Wrap: rapid.Bool().Draw(t, fmt.Sprintf("c%d.wrap", i))}
+			if rapid.IntRange(0, 3).Draw(t, fmt.Sprintf("c%d.uniname", i)) == 0 {
+				cp.Name = uniCompNames[i]
+			}
 			for _, nm := range c.Names {
 				if rapid.IntRange(0, 9).Draw(t, fmt.Sprintf("c%d.fm.%s", i, nm)) < 3 {
 					if cp.FM == nil {
@@ -4151,6 +4201,47 @@ func enumRoot(yield func(Case) bool) int {
 	return n
 }
 
+// enumUni: component files with non-ASCII names x a non-ASCII name as static / bound prop,
+// front-matter key or nothing x required (present and missing) x nesting; values multi-byte.
+func enumUni(yield func(Case) bool) int {
+	n := 0
+	for ci, cn := range uniCompNames {
+		for ni, un := range uniNames {
+			for z := 0; z < 16; z++ {
+				mode, isReq, nested := z&3, z&4 != 0, z&8 != 0
+				c := Case{Names: []string{"va1", un}, Print: []string{"d1"}, Data: fixedData(), NestedShort: true,
+					Comps: []Comp{{Name: cn, Wrap: z%2 == 0}, {Name: "BoxB", Dir: "ui"}}}
+				c.Data["d1"] = vals.Str(uniTexts[(ci+ni)%len(uniTexts)])
+				if isReq {
+					c.Comps[0].Req = []Req{{":required", "va1, " + un}}
+				}
+				inc := Inc{Comp: 0, Props: []Prop{{Name: "va1", Mode: "static", Text: uniTexts[ni%len(uniTexts)]}}}
+				switch mode {
+				case 1:
+					inc.Props = append(inc.Props, Prop{Name: un, Mode: "static", Text: uniTexts[ci%len(uniTexts)]})
+				case 2:
+					inc.Props = append(inc.Props, Prop{Name: un, Mode: []string{"bind", "vbind"}[ni%2], Path: "d1"})
+				case 3:
+					c.Comps[0].FM = map[string]vals.V{un: vals.Str(uniTexts[(ci+1)%len(uniTexts)])}
+				}
+				if nested {
+					c.Comps[1].Incs = []Inc{inc}
+					c.Comps[0], c.Comps[1] = c.Comps[1], c.Comps[0]
+					c.Comps[0].Incs[0].Comp = 1
+					c.Page = []Inc{{Comp: 0}}
+				} else {
+					c.Page = []Inc{inc}
+				}
+				n++
+				if !yield(c) {
+					return n
+				}
+			}
+		}
+	}
+	return n
+}
+
 // ---------------------------------------------------------------------------------------------
 // Tests
 // ---------------------------------------------------------------------------------------------
@@ -4241,6 +4332,7 @@ func TestProp(t *testing.T) {
 	n15 := enumLiteral(each("enum-literal"))
 	n16 := enumDash(each("enum-dash"))
 	n17 := enumRoot(each("enum-root"))
+	n18 := enumUni(each("enum-uni"))
 	if shard == 0 {
 		for k := 0; k < skipped; k++ {
 			rec.Excluded(kfFalsy)
@@ -4252,7 +4344,7 @@ func TestProp(t *testing.T) {
 		}
 	}
 	if full && !rec.Failed() {
-		rec.Exhaustive(run.Pick("quick tier: every second case of twice / chain / place; ", "") + fmt.Sprintf("flat: %d names x {5 prop modes x front-matter x includer x required} (%d); twice: same component twice, 5^4 prop modes x front-matter x includer (%d); chain: depth-3 chain, one name, 10 states per level x includer x leaf required (%d); types: 33 values (16 of them texts starting with [ or { that are not JSON) x 5 modes x 4 collisions + 7 JSON documents as static props (%d); place: 43 placements (loop, slot content, chain member, inside svg / math / table) x 6 ways of passing va1 x front-matter x includer x required (%d); pool: component with 9..12 bindings followed by loop / slot placements, twice (%d); case: 5 names with upper-case letters x front-matter x includer x 4 :required spellings (%d); fmzero: 10 null / zero-ish front-matter values x 5 prop modes x includer x root template x nesting (%d); jsontpl: 8 JSON literals with 0..2 mustaches x 3 sources x includer x front-matter x nesting (%d); spell: LF/CRLF x fence blanks x prop mode (null spelling rotating) x includer x root template x page CRLF (%d); fill: 3 slot kinds (binding nothing) x 7 sets of slot templates declaring colliding variables x 4 prop modes x includer x root template x nesting (%d); dirs: 17 component folders x 3 file names x required prop provided or not x nesting (%d); braces: 6 texts before x 6 texts after a mustache (stray }} and {{) x includer x nesting (%d); blanks: 20 static / interpolated prop values with leading, trailing, inner blanks, tabs, newlines x includer x nesting x v-for (%d); literal: 9 literals in bound props x : / v-bind: x includer x required x nesting (%d, rewritten to variable paths while C05-literal-bound-prop-dropped is open)", run.Pick(2, 3), n1, n2, n3, n4, n5, n6, n7, n8, n9, n10, n11, n12, n13, n14, n15) + fmt.Sprintf("; dash: 9 front-matter values with dash runs x JSON / plain YAML x includer x CRLF x nesting (%d); root: 4 typed root data shapes x 3 entry points x 4 :required lists x prop x nesting (%d)", n16, n17))
+		rec.Exhaustive(run.Pick("quick tier: every second case of twice / chain / place; ", "") + fmt.Sprintf("flat: %d names x {5 prop modes x front-matter x includer x required} (%d); twice: same component twice, 5^4 prop modes x front-matter x includer (%d); chain: depth-3 chain, one name, 10 states per level x includer x leaf required (%d); types: 33 values (16 of them texts starting with [ or { that are not JSON) x 5 modes x 4 collisions + 7 JSON documents as static props (%d); place: 43 placements (loop, slot content, chain member, inside svg / math / table) x 6 ways of passing va1 x front-matter x includer x required (%d); pool: component with 9..12 bindings followed by loop / slot placements, twice (%d); case: 5 names with upper-case letters x front-matter x includer x 4 :required spellings (%d); fmzero: 10 null / zero-ish front-matter values x 5 prop modes x includer x root template x nesting (%d); jsontpl: 8 JSON literals with 0..2 mustaches x 3 sources x includer x front-matter x nesting (%d); spell: LF/CRLF x fence blanks x prop mode (null spelling rotating) x includer x root template x page CRLF (%d); fill: 3 slot kinds (binding nothing) x 7 sets of slot templates declaring colliding variables x 4 prop modes x includer x root template x nesting (%d); dirs: 17 component folders x 3 file names x required prop provided or not x nesting (%d); braces: 6 texts before x 6 texts after a mustache (stray }} and {{) x includer x nesting (%d); blanks: 20 static / interpolated prop values with leading, trailing, inner blanks, tabs, newlines x includer x nesting x v-for (%d); literal: 9 literals in bound props x : / v-bind: x includer x required x nesting (%d, rewritten to variable paths while C05-literal-bound-prop-dropped is open)", run.Pick(2, 3), n1, n2, n3, n4, n5, n6, n7, n8, n9, n10, n11, n12, n13, n14, n15) + fmt.Sprintf("; dash: 9 front-matter values with dash runs x JSON / plain YAML x includer x CRLF x nesting (%d); root: 4 typed root data shapes x 3 entry points x 4 :required lists x prop x nesting (%d); uni: 5 non-ASCII component file names x 4 non-ASCII names x static / bound / front-matter / absent x required x nesting (%d)", n16, n17, n18))
 	}
 
 	run.Rapid(t, rec, "random", genCase(rec, known), classify, check)
